@@ -95,8 +95,8 @@ def changeWhileParsing (cur : Str) (conf : Confidence) (label : Str) : LateChang
 
   The prescan below is parametrised by a set of *deviations*; with every flag `false` (the default, `{}`) it is the
   algorithm of the standard.  Each flag switches ONE documented difference of html5lib's `EncodingParser` on; with all
-  flags on (`html5libDev`) the function is checked (correspondence harness, not proved) to agree with the real
-  `detectEncodingMeta` on the exhaustive test domains.  The oracle uses the flags to attribute every observed
+  flags on (`html5libDevBefore`) the function agreed with the real `detectEncodingMeta` before the repairs; the repaired
+  library is `html5libDev = {}`, i.e. the standard (checked by the harness on the exhaustive test domains).  The oracle uses the flags to attribute every observed
   difference between the real code and the standard to a minimal set of these deviations.
 -/
 structure Dev where
@@ -123,7 +123,13 @@ structure Dev where
   noUserDefinedMap : Bool := false
   deriving Repr, DecidableEq
 
-def html5libDev : Dev :=
+/-- the configuration that describes the CURRENT library: no deviation is left (repairs COMMIT_noUserDefinedMap …
+COMMIT_eagerMeta); the switches above stay for the regression examples and for the harness, which attributes a
+returning difference to them -/
+def html5libDev : Dev := {}
+
+/-- the library before those repairs: all ten deviations -/
+def html5libDevBefore : Dev :=
   { commentNoOverlap := true, metaNeedsSpace := true, endTagOffByOne := true, skipByteAfterLt := true,
     ltTerminates := true, eagerMeta := true, noDedup := true, contentNoRetry := true, contentNoSemicolon := true,
     noUserDefinedMap := true }
